@@ -76,9 +76,70 @@ def S(v):
     return {'k': 'S', 'v': v}
 
 
+LAYOUTS = [None, None, None, None, 'F', 'T', 'step', 'DPlast', 'PD', 'rev']
+
+
+def layout(v, lay):
+    """the coefficient array v (D,P)+shape stored with another memory layout (same values, same logical shape)"""
+    v = np.array(v, copy=True)
+    n = v.ndim
+    if not lay or n == 2 and lay in ('T', 'step', 'rev'):
+        return v
+    if lay == 'F':
+        return np.asfortranarray(v)
+    if lay == 'T':        # the coefficient axes are stored in reversed order (a transposed view)
+        ax = (0, 1) + tuple(range(n - 1, 1, -1))
+        return np.ascontiguousarray(v.transpose(ax)).transpose(ax)
+    if lay == 'step':     # every second element of a larger buffer
+        big = np.full(v.shape[:2] + tuple(2 * t for t in v.shape[2:]), -77, dtype=v.dtype)
+        sl = (slice(None), slice(None)) + tuple(slice(None, None, 2) for _ in v.shape[2:])
+        big[sl] = v
+        return big[sl]
+    if lay == 'DPlast':   # the (D,P) axes are the fastest varying ones in memory
+        c = np.ascontiguousarray(np.moveaxis(np.moveaxis(v, 0, -1), 0, -1))
+        return np.moveaxis(np.moveaxis(c, -1, 0), -1, 0)
+    if lay == 'PD':       # stored as (P,D,...)
+        return np.ascontiguousarray(v.swapaxes(0, 1)).swapaxes(0, 1)
+    if lay == 'rev':      # negative stride along the first coefficient axis
+        return np.ascontiguousarray(v[:, :, ::-1])[:, :, ::-1]
+    raise KeyError(lay)
+
+
 @st.composite
-def poly(draw, D, P, shape, base, mag=1.0):
-    return U(draw(gen.utpm_data(D, P, tuple(shape), base, mag=mag)))
+def ulay(draw, v):
+    """polynomial argument with a drawn memory layout"""
+    a = U(v)
+    lay = draw(st.sampled_from(LAYOUTS))
+    if lay:
+        a['lay'] = lay
+    return a
+
+
+IM = gen.interval_union((-1.5, 1.5))
+
+
+@st.composite
+def poly(draw, D, P, shape, base, mag=1.0, cplx=False, base_im=None, dtype=None):
+    v = draw(gen.utpm_data(D, P, tuple(shape), base, mag=mag, cplx=cplx, base_im=(base_im or IM) if cplx else None))
+    if dtype is not None:
+        v = v.astype(dtype)
+    return draw(ulay(v))
+
+
+@st.composite
+def ipoly(draw, D, P, shape, lo, hi, dtype='int64', nonzero=False):
+    """integer typed coefficient data"""
+    el = st.integers(lo, hi)
+    if nonzero:
+        el = el.filter(lambda k: k != 0)
+    v = draw(hnp.arrays(np.dtype(dtype), (D, P) + tuple(shape), elements=el))
+    return draw(ulay(v))
+
+
+def cscalars(base):
+    """complex scalars: Python complex and numpy.complex128"""
+    c = st.builds(complex, base, IM)
+    return st.one_of(c, c.map(np.complex128))
 
 
 def scalars(base):
@@ -111,6 +172,13 @@ def arith_cases(draw, opname, kinds):
     div = opname == 'truediv'
     case = {'op': opname + ':' + kinds, 'form': kinds, 'params': {}}
     lk, rk = kinds[0], kinds[1]
+    # operand dtypes: mostly float64; complex on either side; integer / float32 polynomial data where NumPy's result
+    # dtype is the operand dtype (+, -, * with integer or same-dtype partners)
+    dmode = draw(st.sampled_from(['f', 'f', 'f', 'f', 'cl', 'cr', 'cb', 'int', 'f32']))
+    if dmode == 'int' and div and KF.is_open('KF-int-dtype-data'):
+        # float valued operation on integer typed polynomial data: result allocated with the integer dtype (open finding)
+        dmode, case['steered'] = 'f', 'KF-int-dtype-data'
+    case['dmode'] = dmode
     steered = None
     if div and lk == 'A' and KF.is_open('KF-rtruediv') and _bshape(s2, s1) != tuple(s1):
         # open finding (shared with C02): ndarray / polynomial where the array does not broadcast INTO the polynomial
@@ -118,24 +186,57 @@ def arith_cases(draw, opname, kinds):
         if _bshape(s2, s1) != tuple(s1):
             s2 = tuple(s1)
 
-    def mk(kind, shape, denom):
+    def mk(kind, shape, denom, left):
         base = NONZERO if denom else ANY
+        cplx = dmode == 'cb' or (dmode == 'cl' and left) or (dmode == 'cr' and not left)
+        if dmode == 'int':
+            if kind == 'U':
+                return draw(ipoly(D, P, shape, -6, 6, draw(st.sampled_from(['int64', 'int64', 'int32']))))
+            if kind == 'A':
+                return A(draw(hnp.arrays(np.int64, tuple(shape), elements=st.integers(-6, 6))))
+            return S(draw(st.one_of(st.integers(-6, 6), st.integers(-6, 6).map(np.int64))))
         if kind == 'U':
-            return draw(poly(D, P, shape, base))
+            return draw(poly(D, P, shape, base, cplx=cplx, dtype=('float32' if dmode == 'f32' else None)))
         if kind == 'A':
             a = draw(gen.float_array(tuple(shape), base, sparse=False))
-            if not denom and draw(st.integers(0, 4)) == 0:
-                a = np.round(a).astype(np.int64)
+            if cplx:
+                a = a + 1j * draw(gen.float_array(tuple(shape), IM, sparse=False))
+            elif dmode == 'f32':
+                a = a.astype(np.float32)
+            elif not denom:
+                k = draw(st.integers(0, 9))
+                if k == 0:
+                    a = np.round(a).astype(np.int64)
+                elif k == 1:
+                    a = np.round(np.abs(a)).astype(np.uint8)
+                elif k == 2:
+                    a = a > 0
+                elif k == 3:
+                    a = a.astype(np.float32)
             return A(a)
+        if cplx:
+            return S(draw(cscalars(base)))
+        if dmode == 'f32':
+            return S(np.float32(draw(base)))
+        if not denom and draw(st.integers(0, 5)) == 0:
+            return S(draw(st.sampled_from([True, False, np.bool_(True), np.uint8(3), np.int32(-2), np.float32(1.5)])))
         return S(draw(scalars(base)))
 
     if lk == 'U':
-        args = [mk('U', s1, False), mk(rk, s2, div)]
+        args = [mk('U', s1, False, True), mk(rk, s2, div, False)]
     else:
-        args = [mk(lk, s2, False), mk('U', s1, div)]
+        args = [mk(lk, s2, False, True), mk('U', s1, div, False)]
     case['args'] = args
     if steered:
         case['steered'] = steered
+    if dmode == 'int' and div:
+        for a in case['args']:      # integer denominators must not be zero
+            v = a['v']
+            if a is case['args'][1]:
+                if isinstance(v, np.ndarray):
+                    v[v == 0] = 1
+                elif v == 0:
+                    a['v'] = type(v)(1)
     return case
 
 
@@ -161,15 +262,32 @@ def inplace_cases(draw, opname, rk):
     if opname == 'itruediv' and rk == 'U' and len(s2) < len(s1) and KF.is_open('KF-itruediv-lower-rank'):
         s2, steered = tuple(s1), 'KF-itruediv-lower-rank'
     div = opname == 'itruediv'
-    left = draw(poly(D, P, s1, ANY))
+    # NumPy's in-place forms need a result dtype that casts into the left operand: complex left operand with real or
+    # complex right operand; integer left operand with integer right operand (not for /=); float32 with float32
+    dmode = draw(st.sampled_from(['f', 'f', 'f', 'cl', 'cb', 'int', 'f32']))
+    if dmode == 'int' and div:
+        dmode = 'f'
     base = NONZERO if div else ANY
-    if rk == 'U':
-        right = draw(poly(D, P, s2, base))
-    elif rk == 'A':
-        right = A(draw(gen.float_array(s2, base, sparse=False)))
+    if dmode == 'int':
+        left = draw(ipoly(D, P, s1, -6, 6))
+        if rk == 'U':
+            right = draw(ipoly(D, P, s2, -6, 6))
+        elif rk == 'A':
+            right = A(draw(hnp.arrays(np.int64, tuple(s2), elements=st.integers(-6, 6))))
+        else:
+            right = S(draw(st.integers(-6, 6)))
     else:
-        right = S(draw(scalars(base)))
-    case = {'op': opname + ':' + rk, 'form': rk, 'params': {}, 'args': [left, right]}
+        f32 = 'float32' if dmode == 'f32' else None
+        rc = dmode == 'cb'
+        left = draw(poly(D, P, s1, ANY, cplx=dmode in ('cl', 'cb'), dtype=f32))
+        if rk == 'U':
+            right = draw(poly(D, P, s2, base, cplx=rc, dtype=f32))
+        elif rk == 'A':
+            a = draw(gen.float_array(s2, base, sparse=False))
+            right = A(a + 1j * draw(gen.float_array(s2, IM, sparse=False)) if rc else (a.astype(np.float32) if f32 else a))
+        else:
+            right = S(draw(cscalars(base)) if rc else (np.float32(draw(base)) if f32 else draw(scalars(base))))
+    case = {'op': opname + ':' + rk, 'form': rk, 'params': {}, 'args': [left, right], 'dmode': dmode}
     if steered:
         case['steered'] = steered
     return case
@@ -208,8 +326,77 @@ def pow_cases(draw, kind):
         r = draw(st.one_of(st.sampled_from([2.0, 0.5, 3, 2]), gen.nice_floats(0.2, 4)))
         case['args'] = [S(r), draw(poly(D, P, s, R((-2, 2))))]
         case['form'] = 'operator'
-    else:
+    elif kind == 'UU':
         case['args'] = [draw(poly(D, P, s, R((0.3, 3)))), draw(poly(D, P, s, R((-2, 2))))]
+    elif kind == 'complex':
+        # complex base and / or complex exponent (scalar exponents; x ** y with complex polynomials)
+        sub = draw(st.sampled_from(['c**int', 'c**negint', 'c**real', 'c**complex', 'r**complex', 'c**c', 'real**c', 'complex**r']))
+        case['sub'] = sub
+        cb = lambda: draw(poly(D, P, s, R((0.3, 3), (-3, -0.3)), cplx=True))
+        if sub == 'c**int':
+            case['args'] = [cb(), S(draw(st.integers(0, 4)))]
+        elif sub == 'c**negint':
+            case['args'] = [cb(), S(draw(st.integers(-3, -1)))]
+        elif sub == 'c**real':
+            case['args'] = [draw(poly(D, P, s, R((0.3, 3)), cplx=True)), S(draw(st.sampled_from([0.5, -0.5, 1.5, 2.5])))]
+        elif sub == 'c**complex':
+            case['args'] = [draw(poly(D, P, s, R((0.3, 3)), cplx=True)), S(draw(cscalars(R((-2, 2)))))]
+        elif sub == 'r**complex':
+            case['args'] = [draw(poly(D, P, s, R((0.3, 3)))), S(draw(cscalars(R((-2, 2)))))]
+        elif sub == 'c**c':
+            case['args'] = [draw(poly(D, P, s, R((0.3, 3)), cplx=True)), draw(poly(D, P, s, R((-2, 2)), cplx=True))]
+        elif sub == 'real**c':
+            case['args'] = [S(draw(st.sampled_from([2.0, 0.5, 3]))), draw(poly(D, P, s, R((-2, 2)), cplx=True))]
+            case['form'] = 'operator'
+        else:
+            case['args'] = [S(draw(cscalars(R((0.3, 3))))), draw(poly(D, P, s, R((-2, 2))))]
+            case['form'] = 'operator'
+    elif kind == 'UA':
+        # x ** ndarray: 0-d, same shape, fewer axes / 1-sized axes (broadcast INTO x), more axes than x, leading axis == P
+        s = draw(shapes(min_rank=0))
+        mode = draw(st.sampled_from(['0d', 'same', 'same', 'into', 'into', 'more', 'leadP']))
+        if mode == '0d':
+            es = ()
+        elif mode == 'same' or len(s) == 0 and mode == 'into':
+            es = tuple(s)
+        elif mode == 'into':
+            k = draw(st.integers(0, len(s)))
+            es = tuple(1 if (t != 1 and draw(st.integers(0, 2)) == 0) else t for t in s[k:])
+        elif mode == 'more':
+            es = (draw(st.integers(1, 3)),) + tuple(s)
+        else:
+            es = (P,) + tuple(s)
+        steered = None
+        if np.broadcast_shapes(tuple(s), es) != tuple(s) and KF.is_open('KF-pow-array-exponent-rank'):
+            es, steered = tuple(s), 'KF-pow-array-exponent-rank'
+        ek = draw(st.sampled_from(['intvalued-float', 'int', 'real']))
+        if ek == 'real':
+            e = draw(gen.float_array(es, st.one_of(st.sampled_from([0.5, 1.5, -0.5, 2.0]), gen.nice_floats(-2, 3)), sparse=False))
+            x = draw(poly(D, P, s, R((0.3, 3))))
+        else:
+            e = draw(hnp.arrays(np.int64, es, elements=st.integers(0, 4) if ek == 'int' else st.integers(-3, 4)))
+            if ek == 'intvalued-float':
+                e = e.astype(float)
+            # negative bases (and exact zeros) only with integer valued exponents; 0 ** negative is infinite: keep zeros away
+            bases = R((0.3, 3), (-3, -0.3))
+            if np.all(e >= 0):
+                bases = st.one_of(bases, st.sampled_from([0.0, -1.0, 1.0]))
+            x = draw(poly(D, P, s, bases))
+        case['args'] = [x, A(e)]
+        case['sub'] = '%s:%s' % (mode, ek)
+        case['form'] = 'operator'
+        if steered:
+            case['steered'] = steered
+    else:  # 'AU': ndarray ** x
+        s = draw(shapes(min_rank=0))
+        bs = draw(hnp.mutually_broadcastable_shapes(num_shapes=1, base_shape=tuple(s), min_dims=0, max_dims=3, max_side=3)).input_shapes[0]
+        if draw(st.integers(0, 3)) == 0:
+            bs = (P,) + tuple(s)
+        b = draw(gen.float_array(bs, R((0.3, 3)), sparse=False))
+        if draw(st.integers(0, 3)) == 0:
+            b = np.ceil(b).astype(np.int64)
+        case['args'] = [A(b), draw(poly(D, P, s, R((-2, 2))))]
+        case['form'] = 'operator'
     return case
 
 
@@ -219,9 +406,14 @@ def _pow_call(form, q, a, b):
     return a ** b
 
 
-for _k in ('int', 'negint', 'real', 'rpow', 'UU'):
-    reg(Op('pow:' + _k, _pow_call, lambda form, q, a, b: np.power(np.asarray(a, dtype=float), b) if not np.isscalar(a) else np.power(float(a), b),
-           (lambda k=_k: pow_cases(k)), tol=1e-13, family='arith'))
+def _pow_ref(form, q, a, b):
+    if isinstance(a, np.ndarray) and a.dtype.kind in 'iub':
+        a = a.astype(float)          # algopy polynomials are float valued: integer ** negative integer is not the subject
+    return np.power(a, b)
+
+
+for _k in ('int', 'negint', 'real', 'rpow', 'UU', 'complex', 'UA', 'AU'):
+    reg(Op('pow:' + _k, _pow_call, _pow_ref, (lambda k=_k: pow_cases(k)), tol=1e-13, family='arith', n=(120, 800) if _k in ('UA', 'AU', 'complex') else (80, 600)))
 
 
 @st.composite
@@ -280,12 +472,69 @@ ELEM = {
 }
 
 
+# complex domains (real part, imaginary part) of the functions NumPy/SciPy evaluate on complex128 and for which algopy
+# returns NumPy's zeroth coefficient (probed on the unchanged tree); away from branch cuts
+CELEM = {
+    'exp': (R((-2, 2)), R((-2, 2))), 'expm1': (R((-2, 2)), R((-2, 2))), 'log': (R((0.3, 3)), R((-1, 1))),
+    'log1p': (R((-0.5, 3)), R((-1, 1))), 'sqrt': (R((0.3, 3)), R((-1, 1))), 'sin': (R((-2, 2)), R((-1, 1))),
+    'cos': (R((-2, 2)), R((-1, 1))), 'tan': (R((-1, 1)), R((-1, 1))), 'arcsin': (R((-0.6, 0.6)), R((-0.5, 0.5))),
+    'arccos': (R((-0.6, 0.6)), R((-0.5, 0.5))), 'arctan': (R((-2, 2)), R((-0.5, 0.5))), 'sinh': (R((-2, 2)), R((-1, 1))),
+    'cosh': (R((-2, 2)), R((-1, 1))), 'tanh': (R((-2, 2)), R((-0.8, 0.8))), 'sign': (AWAY0, R((-2, 2))),
+    'absolute': (AWAY0, R((-2, 2))), 'square': (R((-2, 2)), R((-2, 2))), 'negative': (R((-2, 2)), R((-2, 2))),
+    'reciprocal': (R((0.3, 3), (-3, -0.3)), R((-1, 1))), 'erf': (R((-1.5, 1.5)), R((-1, 1))), 'erfi': (R((-1.5, 1.5)), R((-1, 1))),
+    'dawsn': (R((-1.5, 1.5)), R((-1, 1))),
+}
+# abs(x), x.abs(), x.fabs() of a complex polynomial return x itself (open finding KF-abs-builtin-complex)
+ABS_BUILTIN_FORMS = ('builtin', 'method', 'fabs')
+FLOAT32_OK = set(ELEM)
+
+
 @st.composite
 def elem_cases(draw, name):
     D, P = draw(dims())
     s = draw(shapes())
     dom, forms, _ = ELEM[name]
-    return {'op': name, 'form': draw(st.sampled_from(sorted(forms))), 'params': {}, 'args': [draw(poly(D, P, s, dom, mag=0.5))]}
+    form = draw(st.sampled_from(sorted(forms)))
+    case = {'op': name, 'form': form, 'params': {}}
+    mode = draw(st.sampled_from(['f', 'f', 'f', 'c', 'c', 'f32', 'int']))
+    if mode == 'int' and name in ('sign', 'absolute', 'square', 'negative'):
+        mode = 'f'          # integer preserving functions: bucket int:elementwise
+    if mode == 'int' and KF.is_open('KF-int-dtype-data'):
+        mode, case['steered'] = 'f', 'KF-int-dtype-data'
+    if mode == 'int':
+        lo, hi = {'log': (1, 4), 'sqrt': (0, 4), 'log1p': (0, 3), 'arcsin': (-1, 1), 'arccos': (-1, 1), 'tan': (-1, 1), 'reciprocal': (1, 4),
+                  'logit': (1, 1), 'gammaln': (1, 5), 'psi': (1, 5)}.get(name, (-2, 2))
+        case['args'] = [draw(ipoly(D, P, s, lo, hi))]
+        case['dmode'] = 'int'
+        if name == 'logit':
+            case['args'] = [draw(poly(D, P, s, dom, mag=0.5))]
+    elif mode == 'c' and name in CELEM:
+        if name == 'absolute' and form in ABS_BUILTIN_FORMS and KF.is_open('KF-abs-builtin-complex'):
+            case['steered'] = 'KF-abs-builtin-complex'
+            case['form'] = draw(st.sampled_from(['global', 'global']))
+        case['args'] = [draw(poly(D, P, s, CELEM[name][0], mag=0.5, cplx=True, base_im=CELEM[name][1]))]
+        case['dmode'] = 'c'
+    elif mode == 'f32':
+        case['args'] = [draw(poly(D, P, s, dom, mag=0.5, dtype='float32'))]
+        case['dmode'] = 'f32'
+    else:
+        case['args'] = [draw(poly(D, P, s, dom, mag=0.5))]
+    return case
+
+
+@st.composite
+def intelem_cases(draw):
+    """sign / absolute / square / negative of integer typed polynomials (NumPy keeps the integer dtype)"""
+    D, P = draw(dims())
+    s = draw(shapes())
+    name = draw(st.sampled_from(['sign', 'absolute', 'square', 'negative']))
+    forms = ELEM[name][1]
+    return {'op': 'int:elementwise', 'form': draw(st.sampled_from(sorted(forms))), 'params': {'name': name}, 'dmode': 'int',
+            'args': [draw(ipoly(D, P, s, -6, 6, draw(st.sampled_from(['int64', 'int32'])), nonzero=True))]}
+
+
+reg(Op('int:elementwise', lambda form, q, x: ELEM[q['name']][1][form](x), lambda form, q, x: ELEM[q['name']][2](x), intelem_cases,
+       tol=EXACT, family='elementwise'))
 
 
 for _n in ELEM:
@@ -334,7 +583,7 @@ def minmax_cases(draw, name):
     delta = draw(gen.float_array((1, P) + tuple(s), AWAY0, sparse=False))
     y = draw(gen.utpm_data(D, P, s, R((0, 0))))
     y[0] = x[0] + delta[0]
-    return {'op': name, 'form': draw(st.sampled_from(['global', 'class'])), 'params': {}, 'args': [U(x), U(y)]}
+    return {'op': name, 'form': draw(st.sampled_from(['global', 'class'])), 'params': {}, 'args': [draw(ulay(x)), draw(ulay(y))]}
 
 
 for _n, _r in (('minimum', np.minimum), ('maximum', np.maximum)):
@@ -357,8 +606,12 @@ def prod_cases(draw):
     steered = None
     if _kf_prod(s) and KF.is_open('KF-prod-rank'):
         s, steered = (draw(st.integers(1, 4)),), 'KF-prod-rank'
-    case = {'op': 'prod', 'form': draw(st.sampled_from(['global', 'method'])), 'params': {},
-            'args': [draw(poly(D, P, s, R((0.5, 2), (-2, -0.5))))]}
+    dmode = draw(st.sampled_from(['f', 'f', 'c', 'int']))
+    if dmode == 'int':
+        arg = draw(ipoly(D, P, s, -3, 3, nonzero=True))
+    else:
+        arg = draw(poly(D, P, s, R((0.5, 2), (-2, -0.5)), cplx=dmode == 'c'))
+    case = {'op': 'prod', 'form': draw(st.sampled_from(['global', 'method'])), 'params': {}, 'args': [arg], 'dmode': dmode}
     if steered:
         case['steered'] = steered
     return case
@@ -379,7 +632,7 @@ def max_cases(draw, name):
     for p in range(P):
         perm = draw(st.permutations(list(range(n))))
         x[0, p] = (np.array(perm, dtype=float).reshape(s) - draw(st.integers(0, n))) * draw(st.sampled_from([1.0, 0.5, 0.25]))
-    return {'op': name, 'form': 'class', 'params': {}, 'args': [U(x)]}
+    return {'op': name, 'form': 'class', 'params': {}, 'args': [draw(ulay(x))]}
 
 
 reg(Op('max', lambda form, q, x: UTPM.max(x), lambda form, q, x: np.max(x), lambda: max_cases('max'), tol=EXACT, family='reduction'))
@@ -392,7 +645,7 @@ ARGMAX_CASES = lambda: max_cases('argmax')
 # ---------------------------------------------------------------------------
 
 @st.composite
-def mats(draw, D, P, m, n, kind='general', sym_hi=False):
+def mats(draw, D, P, m, n, kind='general', sym_hi=False, cplx=False):
     """(D,P,m,n) coefficient array; zeroth coefficients built constructively per direction (different bases)"""
     x = np.zeros((D, P, m, n))
     for p in range(P):
@@ -422,6 +675,11 @@ def mats(draw, D, P, m, n, kind='general', sym_hi=False):
         if sym_hi:
             hi = 0.5 * (hi + hi.transpose(0, 1, 3, 2))
         x[1:] = hi
+    if cplx:
+        # rotate by a unit complex number and add an imaginary perturbation far below the smallest singular value (>= 0.3)
+        ph = np.exp(1j * draw(gen.nice_floats(-3.0, 3.0)))
+        e = draw(gen.float_array((D, P, m, n), gen.nice_floats(-1.0, 1.0), sparse=False))
+        x = x * ph + 1j * e * (0.1 / max(m, n) if kind != 'small' else 0.2 / max(m, n))
     return x
 
 
@@ -433,12 +691,22 @@ def dot_cases(draw, kinds):
     s1 = tuple(draw(st.integers(1, 3)) for _ in range(r1 - 1)) + (k,)
     s2 = (k,) if r2 == 1 else tuple(draw(st.integers(1, 3)) for _ in range(r2 - 2)) + (k, draw(st.integers(1, 3)))
 
-    def mk(kind, s):
+    dmode = draw(st.sampled_from(['f', 'f', 'f', 'cl', 'cr', 'cb', 'int', 'f32']))
+
+    def mk(kind, s, left):
+        cplx = dmode == 'cb' or (dmode == 'cl' and left) or (dmode == 'cr' and not left)
+        if dmode == 'int':
+            return draw(ipoly(D, P, s, -4, 4)) if kind == 'U' else A(draw(hnp.arrays(np.int64, tuple(s), elements=st.integers(-4, 4))))
         if kind == 'U':
-            return draw(poly(D, P, s, ANY))
-        return A(draw(gen.float_array(s, ANY, sparse=False)))
-    return {'op': 'dot:' + kinds, 'form': draw(st.sampled_from(['global', 'class'])), 'params': {}, 'args': [mk(kinds[0], s1), mk(kinds[1], s2)],
-            'ranks': (r1, r2)}
+            return draw(poly(D, P, s, ANY, cplx=cplx, dtype='float32' if dmode == 'f32' else None))
+        a = draw(gen.float_array(s, ANY, sparse=False))
+        if cplx:
+            a = a + 1j * draw(gen.float_array(s, IM, sparse=False))
+        elif dmode == 'f32':
+            a = a.astype(np.float32)
+        return A(a)
+    return {'op': 'dot:' + kinds, 'form': draw(st.sampled_from(['global', 'class'])), 'params': {}, 'dmode': dmode,
+            'args': [mk(kinds[0], s1, True), mk(kinds[1], s2, False)], 'ranks': (r1, r2)}
 
 
 for _k in ('UU', 'UA', 'AU'):
@@ -454,11 +722,25 @@ def outer_cases(draw, kinds):
     if n != m and KF.is_open('KF-outer-shape'):
         m, steered = n, 'KF-outer-shape'
 
-    def mk(kind, s):
+    dmode = draw(st.sampled_from(['f', 'f', 'f', 'cl', 'cr', 'cb', 'int', 'intl', 'f32']))
+    if dmode in ('cl', 'cr', 'intl') and KF.is_open('KF-outer-dtype-promotion'):
+        # outer allocates its result with the dtype of one operand: mixed dtypes raise (open finding)
+        dmode, steered = {'cl': 'cb', 'cr': 'cb', 'intl': 'int'}[dmode], 'KF-outer-dtype-promotion'
+
+    def mk(kind, s, left):
+        cplx = dmode == 'cb' or (dmode == 'cl' and left) or (dmode == 'cr' and not left)
+        if dmode == 'int' or (dmode == 'intl' and left):
+            return draw(ipoly(D, P, s, -4, 4)) if kind == 'U' else A(draw(hnp.arrays(np.int64, tuple(s), elements=st.integers(-4, 4))))
         if kind == 'U':
-            return draw(poly(D, P, s, ANY))
-        return A(draw(gen.float_array(s, ANY, sparse=False)))
-    case = {'op': 'outer:' + kinds, 'form': draw(st.sampled_from(['global', 'class'])), 'params': {}, 'args': [mk(kinds[0], (n,)), mk(kinds[1], (m,))]}
+            return draw(poly(D, P, s, ANY, cplx=cplx, dtype='float32' if dmode == 'f32' else None))
+        a = draw(gen.float_array(s, ANY, sparse=False))
+        if cplx:
+            a = a + 1j * draw(gen.float_array(s, IM, sparse=False))
+        elif dmode == 'f32':
+            a = a.astype(np.float32)
+        return A(a)
+    case = {'op': 'outer:' + kinds, 'form': draw(st.sampled_from(['global', 'class'])), 'params': {}, 'dmode': dmode,
+            'args': [mk(kinds[0], (n,), True), mk(kinds[1], (m,), False)]}
     if steered:
         case['steered'] = steered
     return case
@@ -475,7 +757,12 @@ def square_cases(draw, name, kind, sym_hi=False, Dmax=4, nmax=4):
     D = min(D, Dmax)
     n = draw(st.integers(1, nmax))
     k = draw(st.sampled_from(kind)) if isinstance(kind, (list, tuple)) else kind
-    return {'op': name, 'form': draw(st.sampled_from(['global', 'class'])), 'params': {}, 'args': [U(draw(mats(D, P, n, n, k, sym_hi)))], 'mkind': k}
+    cplx = name in ('inv', 'expm') and draw(st.integers(0, 3)) == 0
+    case = {'op': name, 'form': draw(st.sampled_from(['global', 'class'])), 'params': {}, 'mkind': k,
+            'args': [draw(ulay(draw(mats(D, P, n, n, k, sym_hi, cplx=cplx))))]}
+    if cplx:
+        case['dmode'] = 'c'
+    return case
 
 
 def _gc(name, alg=None):
@@ -502,7 +789,7 @@ def rect_cases(draw, name, shapes_ok):
     m, n = draw(st.integers(1, 4)), draw(st.integers(1, 4))
     if shapes_ok == 'tall' and m < n:
         m, n = n, m
-    return {'op': name, 'form': draw(st.sampled_from(['global', 'class'])), 'params': {}, 'args': [U(draw(mats(D, P, m, n)))],
+    return {'op': name, 'form': draw(st.sampled_from(['global', 'class'])), 'params': {}, 'args': [draw(ulay(draw(mats(D, P, m, n))))],
             'mkind': 'square' if m == n else 'tall' if m > n else 'wide'}
 
 
@@ -523,15 +810,24 @@ reg(Op('svd', _gc('svd'), _svd_ref, lambda: rect_cases('svd', 'any'), tol=1e-12,
 def solve_cases(draw, kinds):
     D, P = draw(dims())
     n, k = draw(st.integers(1, 4)), draw(st.integers(1, 3))
+    dmode = draw(st.sampled_from(['f', 'f', 'f', 'cl', 'cr', 'cb']))
+    steered = None
+    if kinds == 'UA' and dmode != 'f' and KF.is_open('KF-solve-ndarray-rhs-complex'):
+        dmode, steered = 'f', 'KF-solve-ndarray-rhs-complex'
+    ca, cb = dmode in ('cl', 'cb'), dmode in ('cr', 'cb')
     if kinds[0] == 'U':
-        a = U(draw(mats(D, P, n, n, draw(st.sampled_from(['general', 'pivot'])))))
+        a = draw(ulay(draw(mats(D, P, n, n, draw(st.sampled_from(['general', 'pivot'])), cplx=ca))))
     else:
-        a = A(draw(gen.well_conditioned(n, n)))
+        a = A(draw(mats(1, 1, n, n, 'general', cplx=ca))[0, 0])
     if kinds[1] == 'U':
-        b = draw(poly(D, P, (n, k), ANY))
+        b = draw(poly(D, P, (n, k), ANY, cplx=cb))
     else:
-        b = A(draw(gen.float_array((n, k), ANY, sparse=False)))
-    return {'op': 'solve:' + kinds, 'form': draw(st.sampled_from(['global', 'class'])), 'params': {}, 'args': [a, b]}
+        b = draw(gen.float_array((n, k), ANY, sparse=False))
+        b = A(b + 1j * draw(gen.float_array((n, k), IM, sparse=False)) if cb else b)
+    case = {'op': 'solve:' + kinds, 'form': draw(st.sampled_from(['global', 'class'])), 'params': {}, 'args': [a, b], 'dmode': dmode}
+    if steered:
+        case['steered'] = steered
+    return case
 
 
 for _k in ('UU', 'UA', 'AU'):
